@@ -137,6 +137,8 @@ pre_save_contract = Contract(
         ("adds-nothing", "implies(in_rows(ghost('rows'), r0), in_rows(old(ghost('rows')), r0))"),
         ("regular-events-touch-nothing", "implies(not (event.is_replaceable or event.is_paramaterized_replaceable), in_rows(ghost('rows'), r0) == in_rows(old(ghost('rows')), r0))"),
         ("stays-in-transaction", "ghost('txn_open')"),
+        # C07: no statement of this event's transaction failed and was swallowed (a failure must escape and roll everything back)
+        ("no-failed-statement-swallowed", "not ghost('engine_failed')"),
     ],
     raises={"EngineError+": True, "ValueError": "not fromhex_ok(event.pubkey)", "IndexError": True},
     modifies=["ghost.rows", "ghost.n_statements", "ghost.n_deletes", "ghost.last_rowcount", "ghost.selected_row"],
@@ -159,7 +161,7 @@ pre_save = REG.unit(Unit(
 pre_save.ghost_havoc = lambda sx, body, st: None
 pre_save.local_types = {"delete_id": V.Opt(V.Bytes)}
 pre_save.post_locals = {"d_tag": V.Str}
-pre_save.obligation_props = [("sql:statement-inside-open-transaction", ["C07"]), ("post:stays-in-transaction", ["C07"]),
+pre_save.obligation_props = [("sql:statement-inside-open-transaction", ["C07"]), ("post:stays-in-transaction", ["C07"]), ("post:no-failed-statement", ["C07"]),
                              # C06 ("resubmitting a stored event changes nothing") rests on: only STRICTLY older rows are superseded
                              ("post:supersedes-only-older-same-address", ["C09", "C06"]), ("post:regular-events-touch-nothing", ["C09", "C06"]),
                              ("post:", ["C09"]), ("inv:", ["C09"]), ("exc:", ["C09", "C07"]), ("call:", ["C07", "C09"])]
@@ -212,6 +214,8 @@ process_tags_contract = Contract(
          "implies(event.kind == 5 and in_rows(old(ghost('rows')), r0) and %s and %s, not in_rows(ghost('rows'), r0))" % (OWN, REFERENCED % "len(event.tags)")),
         ("adds-no-event-row", "implies(in_rows(ghost('rows'), r0), in_rows(old(ghost('rows')), r0))"),
         ("stays-in-transaction", "ghost('txn_open')"),
+        # C07: no statement of this event's transaction failed and was swallowed (a failure must escape and roll everything back)
+        ("no-failed-statement-swallowed", "not ghost('engine_failed')"),
     ],
     raises={"EngineError+": True, "ValueError": True, "IndexError": True},
     modifies=["ghost.rows", "ghost.n_statements", "ghost.n_deletes", "ghost.n_tag_inserts", "ghost.last_rowcount"],
@@ -224,15 +228,18 @@ process_tags = REG.unit(Unit(
         2: LoopSpec("deletions", index="_k", invariants=[
             ("removed-so-far", "in_rows(ghost('rows'), r0) == (in_rows(old(ghost('rows')), r0) and not (%s and %s))" % (OWN, REFERENCED % "_k")),
             ("in-txn", "ghost('txn_open')"),
+            ("no-failure-swallowed", "not ghost('engine_failed')"),
         ]),
-        1: LoopSpec("collect", index="_t", invariants=[("rows-untouched", "in_rows(ghost('rows'), r0) == in_rows(old(ghost('rows')), r0) and ghost('txn_open') and ghost('n_deletes') == 0")]),
+        1: LoopSpec("collect", index="_t", invariants=[("rows-untouched", "in_rows(ghost('rows'), r0) == in_rows(old(ghost('rows')), r0) and ghost('txn_open') and ghost('n_deletes') == 0"),
+                                                       ("no-failure-swallowed", "not ghost('engine_failed')")]),
     },
     props=["C08", "C07"], ghost_init=ghost_db,
     canaries=[("never-deletes", "ghost('n_deletes') == 0")],
 ))
-process_tags.ghost_havoc = lambda sx, body, st: [st.ghost.__setitem__(g, sx.fresh(st.ghost[g].ty, "g_" + g, st)) for g in ("rows", "n_statements", "n_deletes", "last_rowcount")]
+process_tags.ghost_havoc = lambda sx, body, st: [st.ghost.__setitem__(g, sx.fresh(st.ghost[g].ty, "g_" + g, st)) for g in ("rows", "n_statements", "n_deletes", "last_rowcount", "engine_failed")]
 process_tags.local_types = {"tags": V.Set(V.Tuple(V.Str, V.Str))}
 process_tags.obligation_props = [("sql:statement-inside-open-transaction", ["C07"]), ("post:stays-in-transaction", ["C07"]), ("inv:in-txn", ["C07"]),
+                                 ("post:no-failed-statement", ["C07"]), ("inv:no-failure-swallowed", ["C07"]),
                                  ("post:", ["C08"]), ("inv:", ["C08"]), ("exc:", ["C08", "C07"])]
 
 
@@ -250,6 +257,8 @@ post_save_contract = Contract(
          % (GONE, OWN, REFERENCED % "len(event.tags)")),
         ("adds-no-event-row", "implies(in_rows(ghost('rows'), r0), in_rows(old(ghost('rows')), r0))"),
         ("stays-in-transaction", "ghost('txn_open')"),
+        # C07: no statement of this event's transaction failed and was swallowed (a failure must escape and roll everything back)
+        ("no-failed-statement-swallowed", "not ghost('engine_failed')"),
     ],
     raises={"EngineError+": True, "ValueError": True, "IndexError": True},
     modifies=["ghost.rows", "ghost.n_statements", "ghost.n_deletes", "ghost.n_tag_inserts", "ghost.last_rowcount"],
@@ -257,7 +266,7 @@ post_save_contract = Contract(
 post_save_contract.ghost_params = ("r0",)
 post_save = REG.unit(Unit(P, "DBStorage.post_save", post_save_contract, props=["C09", "C08", "C06", "C07"], ghost_init=ghost_db,
                           canaries=[("always-changed", "changed")]))
-post_save.obligation_props = [("sql:statement-inside-open-transaction", ["C07"]), ("post:stays-in-transaction", ["C07"]),
+post_save.obligation_props = [("sql:statement-inside-open-transaction", ["C07"]), ("post:stays-in-transaction", ["C07"]), ("post:no-failed-statement", ["C07"]),
                               ("post:unchanged-event-has-no-effects", ["C06"]), ("call:DBStorage.process_tags/pre:inside", ["C07"]),
                               ("post:", ["C09", "C08"]), ("exc:", ["C07"])]
 
